@@ -345,7 +345,45 @@ def seq_key(seq) -> tuple:
     # partial mapping keeps (unused) entries for the qubits that were left out
     present = set(reg.qubits)
     pk = tuple((b, tuple((q, v) for q, v in refs if q in present)) for b, refs in snap.phase_key())
-    return (snap.timeline_key(), pk, fl, rk)
+    return SeqView(snap, pk, fl, rk)
+
+
+def timelines_close(sa, sb) -> bool:
+    """Channels matched by NAME (declaration order is not part of the timeline)."""
+    if set(sa.channels) != set(sb.channels):
+        return False
+    for n, a in sa.channels.items():
+        b = sb.channels[n]
+        if a.channel_id != b.channel_id or len(a.slots) != len(b.slots) or len(a.eom_blocks) != len(b.eom_blocks):
+            return False
+        for x, y in zip(a.slots, b.slots):
+            if (x.kind, x.ti, x.tf, x.targets) != (y.kind, y.ti, y.tf, y.targets):
+                return False
+            if x.pulse is not None and x.pdig != y.pdig:
+                ax, ay = observe._arr(x.pulse.amplitude.samples), observe._arr(y.pulse.amplitude.samples)
+                dx, dy = observe._arr(x.pulse.detuning.samples), observe._arr(y.pulse.detuning.samples)
+                if ax.shape != ay.shape or dx.shape != dy.shape:
+                    return False
+                if not (np.allclose(ax, ay, rtol=1e-9, atol=1e-12) and np.allclose(dx, dy, rtol=1e-9, atol=1e-12)):
+                    return False
+                if not keys_close((float(x.pulse.phase), float(x.pulse.post_phase_shift)), (float(y.pulse.phase), float(y.pulse.post_phase_shift))):
+                    return False
+        if not keys_close(a.eom_blocks, b.eom_blocks):
+            return False
+        if a.dmm_weights != b.dmm_weights:
+            return False
+    return True
+
+
+class SeqView:
+    """What two 'same' sequences must agree on. Compared by keys_close():
+    instruction kinds, times and targets exactly; pulse samples to 1e-9 relative
+    (the model evaluates expressions with Python/numpy scalars, the library on
+    zero-dimensional arrays: `a**2` can differ by one ulp between them); phases
+    and phase references to 1e-9 modulo 2 pi; flags and register exactly."""
+
+    def __init__(self, snap, pk, fl, rk):
+        self.snap, self.pk, self.fl, self.rk = snap, pk, fl, rk
 
 
 _TWO_PI = 2 * math.pi
@@ -356,6 +394,10 @@ def keys_close(a, b) -> bool:
     floats (1e-9), phases taken modulo 2 pi: a serialisation round trip rebuilds
     Pulse(phase=p) from a stored p that may be exactly 2 pi (the float result of
     `-1e-17 % 2 pi`), which the constructor then reduces to 0.0."""
+    if isinstance(a, SeqView) or isinstance(b, SeqView):
+        if not (isinstance(a, SeqView) and isinstance(b, SeqView)):
+            return False
+        return a.fl == b.fl and a.rk == b.rk and keys_close(a.pk, b.pk) and timelines_close(a.snap, b.snap)
     if isinstance(a, tuple) and isinstance(b, tuple):
         return len(a) == len(b) and all(keys_close(x, y) for x, y in zip(a, b))
     if isinstance(a, float) and isinstance(b, float):
@@ -364,7 +406,17 @@ def keys_close(a, b) -> bool:
     return a == b
 
 
-def key_diff(a: tuple, b: tuple) -> str:
+def key_diff(a, b) -> str:
+    if isinstance(a, SeqView) and isinstance(b, SeqView):
+        from .oracles.c09 import _diff
+
+        if not timelines_close(a.snap, b.snap):
+            return "timeline: " + _diff(a.snap, b.snap)
+        if not keys_close(a.pk, b.pk):
+            return "phase references differ"
+        if a.fl != b.fl:
+            return f"flags {a.fl} vs {b.fl}"
+        return f"register {a.rk} vs {b.rk}"
     names = ("timeline", "phase references", "flags", "register")
     for n, x, y in zip(names, a, b):
         if x != y:
